@@ -80,6 +80,21 @@ def mutate_line(line):
         i = code.find(a)
         if i >= 0 and not (a in ("true", "false") and re.search(r"\w" + a + r"|" + a + r"\w", code)):
             yield ("swap %s->%s" % (a, b or "(removed)"), code[:i] + b + code[i + len(a):] + rest)
+    # identifier swaps between fields / locals of the same kind
+    for a, b in [("self.count", "self.period"), ("self.period", "self.count"), ("self.index", "self.count"), ("self.count", "self.index"), ("input", "old_val"), ("old_val", "input"),
+                 ("self.sum_flat", "self.sum"), ("highest", "lowest"), ("lowest", "highest"), ("max_index", "cur_index"), ("min_index", "cur_index"), ("cur_index", "max_index"),
+                 ("fast_val", "slow_val"), ("slow_val", "fast_val"), ("self.m2", "self.m"), ("delta2", "delta"), ("up_ema", "down_ema"), ("self.total_positive_money_flow", "self.total_negative_money_flow"),
+                 ("self.prev_close", "None::<f64>"), ("self.previous_typical_price", "tp"), ("self.is_new", "false"), ("period as f64", "(period + 1) as f64"), ("count as f64", "period as f64"), ("period as f64", "count as f64")]:
+        for m in re.finditer(re.escape(a) + r"(?![\w])", code):
+            if m.start() > 0 and (code[m.start() - 1].isalnum() or code[m.start() - 1] == "_"):
+                continue
+            new = code[:m.start()] + b + code[m.end():]
+            # do not turn an assignment target into a different declaration
+            yield ("ident %s->%s" % (a, b), new + rest)
+    # negated condition
+    m = re.match(r"^(\s*(?:\} else )?if )(.+)( \{\s*)$", code)
+    if m and not m.group(2).startswith("let "):
+        yield ("negate condition", m.group(1) + "!(" + m.group(2) + ")" + m.group(3) + rest)
     # statement deletion: simple assignments / calls on self
     if re.match(r"^\s*self\.[\w.\[\]]+(\s*[+\-*/]?=\s*[^;]+|\.\w+\([^;]*\));\s*$", code):
         yield ("delete statement", re.match(r"^\s*", code).group(0) + "// (statement removed)" + "\n" if not line.endswith("\n") else re.match(r"^\s*", code).group(0) + "();\n")
@@ -102,6 +117,9 @@ def gen_mutants(files_filter=None, limit_per_file=None):
                 in_tests = True
             if in_tests:
                 break
+            stmt = r"^\s*(self\.[\w.\[\]]+\s*[+\-*/]?=\s*[^;]+;|let (mut )?\w+(: \w+)? = [^;]+;)\s*$"
+            if i + 1 < len(lines) and re.match(stmt, line) and re.match(stmt, lines[i + 1]) and line.strip() != lines[i + 1].strip() and "#[cfg(test)]" not in "".join(lines[:i]):
+                per_file.append({"file": rel, "line": i + 1, "op": "swap adjacent statements", "old": line, "new": lines[i + 1], "line2": i + 2, "old2": lines[i + 1], "new2": line})
             for op, new in mutate_line(line + "\n"):
                 new = new.rstrip("\n")
                 if new == line:
@@ -122,6 +140,9 @@ def make_patch(root, m):
     lines = open(path).read().split("\n")
     assert lines[m["line"] - 1] == m["old"], (m, lines[m["line"] - 1])
     lines[m["line"] - 1] = m["new"]
+    if "line2" in m:
+        assert lines[m["line2"] - 1] == m["old2"]
+        lines[m["line2"] - 1] = m["new2"]
     open(path, "w").write("\n".join(lines))
     rc, out = sh("git diff -- src", cwd=f"{root}/repo")
     return out
